@@ -9,6 +9,11 @@ corruptions, truncations) and every malformed stream (no panic, no acceptance of
 """
 
 
+def generate(ctx):
+    """(T) codec inventory regenerated from the anchored Go files: every type with a codec pair must have a schema."""
+    return ctx.run_extract("codecinv", [], out_lean="CodecInventory.lean")
+
+
 def run(ctx):
     ctx.level = "proof"
     ctx.assumptions += [
@@ -17,8 +22,9 @@ def run(ctx):
         "decoders that overwrite `eof` between fields (Version, HeadersReq, ConsensusPayload, Addr entries) are modelled as strict products: once a NextX hits eof the offset is at the end, so the last field's eof equals the disjunction (exercised by the correspondence on every truncation)",
         "checksum integrity is stated as what it is: up to collisions of a 32-bit truncated double hash",
     ]
-    ctx.cov["trusted_base"] += ["harness hcodec/p2p + drv_codec (correspondence check)", "Lean compiler for the driver",
+    ctx.cov["trusted_base"] += ["translator extract/codecinv (go/parser: lists the types with a codec pair in the anchored files)", "harness hcodec/p2p + drv_codec (correspondence check)", "Lean compiler for the driver",
                                 "key library ontology-crypto (verdicts passed to the model)"]
+    generate(ctx)
     ctx.lean_props()
     hbin = ctx.build_harness("hcodec")
     drv = ctx.build_driver("drv_codec")
